@@ -26,7 +26,7 @@ structure FillOK (magic addr p : Nat) (f : PageFill) : Prop where
   tr : f.trailer.WF (decide (magic < 0xD110))
   whole : ∀ r ∈ f.whole, r.WF (decide (magic < 0xD110))
   rest : ∀ r ∈ f.rest, r.WF (decide (magic < 0xD110))
-  carry : f.carry.length ≤ 16000
+  carry : f.carry.length ≤ 1069547520
   cont : CarryOK f.carry f.trailer
   recs : addr + 8192 ≤ 2 ^ 64 → loopRecs magic addr p f.whole f.trailer = f.placed.map (placedM magic)
 
@@ -40,7 +40,7 @@ theorem fillPage_ok (magic addr : Nat) (rs : List Spec.Wal.WalRecord) (hrs : ∀
     have hr := hrs r (by simp)
     have h24 := totLen_ge r
     have hlen := encRecord_length r
-    have htot : r.totLen ≤ 16000 := hr.2.2.2.2.2.2.2.2.2.2
+    have htot : r.totLen ≤ 1069547520 := hr.2.2.2.2.2.2.2.2.2.2
     unfold fillPage
     by_cases h1 : p + Spec.Wal.align8 r.totLen ≤ 8192
     · simp only [h1, if_true]
